@@ -78,7 +78,7 @@ Proof.
   apply core_batch in C as [(-> & -> & ->)|(NI & done & BS & ->)]; auto;
     try apply (i_onodup _ _ IB); try apply (i_bnodup _ _ IB).
   - simpl in A. inv A. simpl. split; [intros []|intros (_ & _ & _ & [] & _)].
-  - pose proof (bs_keeps _ _ _ _ _ BS) as [K1 K2 K3 K4 K5 K6]. pose proof (bs_ng _ _ _ _ _ BS) as NG.
+  - pose proof (bs_keeps _ _ _ _ _ BS) as [K1 K2 K3 K4 K5 K6 K7]. pose proof (bs_ng _ _ _ _ _ BS) as NG.
     destruct done; simpl in A.
     + destruct (finish_disp_iff c s1 s' o2 sids (or_intror I) A) as [X D].
       unfold threshold in *. rewrite K1, K2, K3, K4 in X. split.
@@ -185,7 +185,7 @@ Proof.
   assert (K : stopping s1 = true).
   { destruct (phase_eq_idle (ph s)) as [Pi|Pi].
     - unfold cancel_batch in E. replace (ph s0) with Idle in E by (symmetry; exact Pi). inv E. reflexivity.
-    - apply cancel_batch_ok in E. destruct E as [[_ _ _ K _ _] _ _]. rewrite K. reflexivity. }
+    - apply cancel_batch_ok in E. destruct E as [[_ _ _ K _ _ _] _ _]. rewrite K. reflexivity. }
   assert (M : exists s2 o2, apply_epi c s1 (if done then Fin else NoEpi) = (s2, o2) /\ Forall stop_out o2 /\ stopping s2 = true).
   { destruct done; simpl.
     - unfold finish, finish0. destruct (stopping_no_dispatch c (set_retry (set_ph s1 Idle) 0 0 0) K) as [_ C]. rewrite C.
@@ -249,6 +249,9 @@ Proof.
     destruct (NS ltac:(intros ? X; discriminate X)) as (s1 & o1 & ep & o2 & C & A & ->). cbn [core] in C.
     inv C. simpl in A. inv A. apply QUIET. constructor.
   - (* EMetaClearAll *)
+    destruct (NS ltac:(intros ? X; discriminate X)) as (s1 & o1 & ep & o2 & C & A & ->). cbn [core] in C.
+    inv C. simpl in A. inv A. apply QUIET. constructor.
+  - (* EBroken *)
     destruct (NS ltac:(intros ? X; discriminate X)) as (s1 & o1 & ep & o2 & C & A & ->). cbn [core] in C.
     inv C. simpl in A. inv A. apply QUIET. constructor.
   - (* EStop *)
@@ -319,6 +322,8 @@ Proof.
     inv C. destruct (looper s1).
     + eapply epi_rest_ok; [right; reflexivity|left; exact R|exact A].
     + simpl in A. inv A. auto.
+  - destruct (NS ltac:(intros ? X; discriminate X)) as (s1 & o1 & ep & o2 & C & A & ->). cbn [core] in C.
+    inv C. simpl in A. inv A. eapply rest_ok_same; eauto; reflexivity.
   - destruct (NS ltac:(intros ? X; discriminate X)) as (s1 & o1 & ep & o2 & C & A & ->). cbn [core] in C.
     inv C. simpl in A. inv A. eapply rest_ok_same; eauto; reflexivity.
   - destruct (NS ltac:(intros ? X; discriminate X)) as (s1 & o1 & ep & o2 & C & A & ->). cbn [core] in C.
@@ -418,7 +423,8 @@ Proof.
   destruct (group_requests s reqs res []) as [[s2 o2] pls] eqn:E.
   pose proof (group_requests_xo _ _ _ _ _ _ _ E) as [_ X2].
   apply group_requests_spec in E as (_ & B & _); auto. simpl in B.
-  destruct pls as [|p pls]; inv H; [apply wire_in_outcomes; auto|].
+  destruct pls as [|p pls]; [inv H; apply wire_in_outcomes; auto|].
+  destruct (broken s2); inv H; [apply wire_in_outcomes; auto|].
   apply wire_in_app; [apply wire_in_outcomes; auto|].
   intros o [<-|[]]. simpl. eapply incl_tran; [apply (wire_view (p :: pls))|]. apply ids_incl; auto.
 Qed.
@@ -476,7 +482,7 @@ Proof.
       destruct (lookups_progress s2 reqs ls2) as [[s3 o3] d3] eqn:E3. unfold fin_if in H. inv H.
       apply wire_in_app; [apply wire_in_lk; auto|]. simpl. eapply lookups_progress_wire; [|exact E3].
       rewrite (eq_xl_outstanding _ _ A1); auto.
-    + destruct (tid0 =? tid); [|inv H; apply wire_in_nil]. inv H.
+    + destruct (tid0 =? tid); [|inv H; apply wire_in_nil]. destruct (broken s); inv H; [apply wire_in_nil|].
       intros o [<-|[]]. simpl. eapply incl_tran; [apply wire_view|]. apply ids_incl, all_sends_filter_incl.
   - destruct (ph s) eqn:P; try (inv H; apply wire_in_nil; fail). simpl.
     destruct (r =? 0); [|destruct (r =? 1)].
@@ -486,6 +492,10 @@ Proof.
       apply wire_in_outcomes. eapply deliver_xo; eauto.
   - destruct (ph s) eqn:P; try (inv H; apply wire_in_nil; fail).
     destruct (result_ok c cur v); [|inv H; apply wire_in_nil].
+    destruct (handle_result c s pls cur v) as [[s2 o2] d2] eqn:E. unfold fin_if in H. inv H.
+    eapply handle_result_wire; eauto.
+  - destruct (ph s) eqn:P; try (inv H; apply wire_in_nil; fail).
+    destruct (omit_ok c cur v); [|inv H; apply wire_in_nil].
     destruct (handle_result c s pls cur v) as [[s2 o2] d2] eqn:E. unfold fin_if in H. inv H.
     eapply handle_result_wire; eauto.
 Qed.
@@ -526,7 +536,7 @@ Proof.
   - inv A; right; auto.
   - unfold finish in A. destruct (finish0 s1) as [s3 o3] eqn:F. destruct (check_send_batch c s3) as [s4 o4] eqn:E. inv A.
     pose proof (i_b _ W) as IB.
-    destruct (finish0_inv _ _ _ _ IB F) as (W3 & -> & [K1 _ _ _ _ _] & _ & P3).
+    destruct (finish0_inv _ _ _ _ IB F) as (W3 & -> & [K1 _ _ _ _ _ _] & _ & P3).
     left. apply Ck in E as [[X Y]|[-> ->]]; auto.
     + rewrite K1 in X, Y. split; auto. apply wire_in_app; auto. apply wire_in_quiet; repeat constructor.
     + split; [apply wire_in_quiet; repeat constructor|]. unfold pool. rewrite P3, K1. simpl. apply incl_refl.
@@ -547,11 +557,11 @@ Proof.
     apply core_batch in C as [(-> & -> & ->)|(NI & done & BS & ->)]; auto;
       try apply (i_onodup _ _ IB); try apply (i_bnodup _ _ IB).
     - simpl in A. inv A. split; [apply incl_refl|apply wire_in_nil].
-    - pose proof (bs_keeps _ _ _ _ _ BS) as [K1 K2 K3 K4 K5 K6].
+    - pose proof (bs_keeps _ _ _ _ _ BS) as [K1 K2 K3 K4 K5 K6 K7].
       destruct done.
       + pose proof (invB_bstep _ _ _ _ _ [] IB BS (incl_nil_l _) (NoDup_nil _)) as I2.
         simpl in A. unfold finish in A. destruct (finish0 s1) as [s3 o3] eqn:F. destruct (check_send_batch c s3) as [s4 o4] eqn:E. inv A.
-        destruct (finish0_inv _ _ _ _ I2 F) as (W3 & -> & [J1 _ _ _ _ _] & _ & P3).
+        destruct (finish0_inv _ _ _ _ I2 F) as (W3 & -> & [J1 _ _ _ _ _ _] & _ & P3).
         assert (A' : apply_epi c s3 Check = (s', o4)) by exact E.
         apply epi_wire in A' as [[X Y]|[-> ->]]; auto.
         * rewrite J1, K1 in X, Y. split; [eapply incl_tran; [exact Y|apply incl_appr, incl_refl]|].
@@ -586,6 +596,8 @@ Proof.
     inv C. simpl. rewrite app_nil_r. apply epi_wire in A as [[X Y]|[-> ->]]; auto.
     + split; [eapply incl_tran; [exact Y|apply incl_appr, incl_refl]|eapply wire_in_mono; [|exact X]; apply incl_appr, incl_refl].
     + split; [apply incl_refl|apply wire_in_nil].
+  - destruct (NS ltac:(intros ? X; discriminate X)) as (s1 & o1 & ep & o2 & C & A & ->). cbn [core] in C.
+    inv C. simpl in A. inv A. simpl. rewrite app_nil_r. split; [apply incl_refl|apply wire_in_nil].
   - destruct (NS ltac:(intros ? X; discriminate X)) as (s1 & o1 & ep & o2 & C & A & ->). cbn [core] in C.
     inv C. simpl in A. inv A. simpl. rewrite app_nil_r. split; [apply incl_refl|apply wire_in_nil].
   - destruct (NS ltac:(intros ? X; discriminate X)) as (s1 & o1 & ep & o2 & C & A & ->). cbn [core] in C.
@@ -685,7 +697,7 @@ Proof.
     left. eapply G; eauto.
     apply core_batch in C as [(-> & -> & ->)|(NI & done & BS & ->)]; auto;
       try apply (i_onodup _ _ IB); try apply (i_bnodup _ _ IB).
-    destruct (bs_keeps _ _ _ _ _ BS) as [K1 _ _ _ _ _]. rewrite K1; auto. }
+    destruct (bs_keeps _ _ _ _ _ BS) as [K1 _ _ _ _ _ _]. rewrite K1; auto. }
   destruct e; try (apply BE; reflexivity).
   - destruct (NS ltac:(intros ? X; discriminate X)) as (s1 & o1 & ep & o2 & C & A & E). cbn [core] in C. left.
     eapply G; eauto. destruct ((cnt <? 1) || (bytes <? 0)); [|destruct (stopping s)]; inv C; simpl; auto.
@@ -700,6 +712,8 @@ Proof.
     + right. apply remove_send_spec in Rm as (a & b & Qa & Qb & Sx & _). simpl. left.
       rewrite Qa in Q. rewrite Qb in Q'. unfold ids in *. rewrite map_app in *. simpl in Q.
       apply in_app_or in Q as [Q|[Q|Q]]; [exfalso; apply Q'; apply in_or_app; auto|congruence|exfalso; apply Q'; apply in_or_app; auto].
+  - destruct (NS ltac:(intros ? X; discriminate X)) as (s1 & o1 & ep & o2 & C & A & E). cbn [core] in C. left.
+    eapply G; eauto. inv C; auto.
   - destruct (NS ltac:(intros ? X; discriminate X)) as (s1 & o1 & ep & o2 & C & A & E). cbn [core] in C. left.
     eapply G; eauto. inv C; auto.
   - destruct (NS ltac:(intros ? X; discriminate X)) as (s1 & o1 & ep & o2 & C & A & E). cbn [core] in C. left.
@@ -733,6 +747,8 @@ Proof.
     apply cancel_send_spec in Ec as (OO & _ & S2 & _). split; [congruence|apply outcomes_stop_out; auto].
   - destruct (NS ltac:(intros ? X; discriminate X)) as (s1 & o1 & ep & o2 & C & A & ->). cbn [core] in C.
     inv C. rewrite (L St) in A. simpl in A. inv A. split; simpl; [auto|try constructor; auto].
+  - destruct (NS ltac:(intros ? X; discriminate X)) as (s1 & o1 & ep & o2 & C & A & ->). cbn [core] in C.
+    inv C. simpl in A. inv A. split; simpl; [auto|try constructor; auto].
   - destruct (NS ltac:(intros ? X; discriminate X)) as (s1 & o1 & ep & o2 & C & A & ->). cbn [core] in C.
     inv C. simpl in A. inv A. split; simpl; [auto|try constructor; auto].
   - destruct (NS ltac:(intros ? X; discriminate X)) as (s1 & o1 & ep & o2 & C & A & ->). cbn [core] in C.
@@ -800,7 +816,7 @@ Proof.
   assert (K : stopping s1 = true).
   { destruct (phase_eq_idle (ph s)) as [Pi|Pi].
     - unfold cancel_batch in E. replace (ph s0) with Idle in E by (symmetry; exact Pi). inv E. reflexivity.
-    - apply cancel_batch_ok in E. destruct E as [[_ _ _ K _ _] _ _]. rewrite K. reflexivity. }
+    - apply cancel_batch_ok in E. destruct E as [[_ _ _ K _ _ _] _ _]. rewrite K. reflexivity. }
   assert (Pd : done = false -> ph s1 = Idle).
   { intros ->. destruct (phase_eq_idle (ph s)) as [Pi|Pi].
     - unfold cancel_batch in E. replace (ph s0) with Idle in E by (symmetry; exact Pi). inv E. exact Pi.
@@ -875,6 +891,8 @@ Proof.
   - simpl in H. inv H. split; [repeat split; auto|left; reflexivity].
   - simpl in H. inv H. split; [repeat split; auto|left; reflexivity].
   - simpl in H. inv H. split; [repeat split; auto|left; reflexivity].
+  - simpl in H. inv H. split; [repeat split; auto|left; reflexivity].
+  - simpl in H. inv H. split; [repeat split; auto|left; reflexivity].
   - unfold cancel_batch in H. simpl in H. rewrite Ph in H. simpl in H. rewrite O in H. simpl in H. inv H.
     split; [repeat split; auto|left; reflexivity].
 Qed.
@@ -888,4 +906,206 @@ Proof.
   - destruct (step c s e) as [s1 o1] eqn:E. destruct (run c s1 r) as [s2 t2] eqn:E2. inv H.
     destruct (stopped_step _ _ _ _ _ S E) as [S1 R1]. destruct (IH _ _ _ S1 E2) as [S2 F2]. split; auto.
     intros e0 out [X|X]; [inv X|eauto]. destruct R1 as [->|(k & -> & M)]; [left; auto|right; eauto].
+Qed.
+
+(* ------------------------------------------------------------------ the time limit stays armed until stop() *)
+Lemma epi_flags : forall c s1 ep s2 o2, apply_epi c s1 ep = (s2, o2) -> stopping s2 = stopping s1 /\ looper s2 = looper s1.
+Proof.
+  intros c s1 ep s2 o2 A.
+  assert (T : forall s s' o, try_send_batch c s = (s', o) -> stopping s' = stopping s /\ looper s' = looper s).
+  { intros s s' o H. apply try_send_batch_spec in H as [[_ D]|(_ & -> & _)]; auto.
+    apply dispatch_spec in D as (_ & _ & _ & A1 & A2 & _). auto. }
+  assert (Ck : forall s s' o, check_send_batch c s = (s', o) -> stopping s' = stopping s /\ looper s' = looper s).
+  { unfold check_send_batch; intros s s' o H. destruct (threshold c s); [eauto|inv H; auto]. }
+  destruct ep; simpl in A; eauto.
+  - inv A; auto.
+  - unfold finish, finish0 in A. destruct (check_send_batch c _) as [s4 o4] eqn:E. inv A. apply Ck in E. exact E.
+Qed.
+
+Theorem step_flags : forall c s e s' out, Inv s -> (forall cv, e <> EStop cv) -> step c s e = (s', out) ->
+  stopping s' = stopping s /\ looper s' = looper s.
+Proof.
+  intros c s e s' out I NE H. pose proof I as [W L]. pose proof W as [IB PW ID ST].
+  destruct (step_nonstop c s e s' out NE H) as (s1 & o1 & ep & o2 & C & A & ->).
+  apply epi_flags in A as [A1 A2]. rewrite A1, A2. clear A1 A2.
+  destruct (batch_event e) eqn:BE.
+  - apply core_batch in C as [(-> & _)|(_ & done & BS & _)]; auto;
+      try apply (i_onodup _ _ IB); try apply (i_bnodup _ _ IB).
+    destruct (bs_keeps _ _ _ _ _ BS) as [_ _ _ K4 K5 _ _]. auto.
+  - destruct e; try discriminate; cbn [core] in C.
+    + destruct ((cnt <? 1) || (bytes <? 0)); [|destruct (stopping s) eqn:SS]; inv C; simpl; auto.
+    + inv C; auto.
+    + destruct (cancel_send s sid) as [s2 o3] eqn:Ec. inv C. apply cancel_send_spec in Ec as (_ & _ & St & Lp & _). auto.
+    + inv C; auto.
+    + inv C; auto.
+    + inv C; auto.
+    + inv C; auto.
+    + exfalso. eapply NE; reflexivity.
+Qed.
+
+Theorem looper_until_stop : forall c has_t api0 cache0 evs s tr,
+  run c (init_state has_t api0 cache0) evs = (s, tr) -> stopping s = false -> looper s = has_t.
+Proof.
+  intros c h a ca evs s tr H.
+  assert (G : forall evs s0 s1 tr1, Inv s0 -> (stopping s0 = false -> looper s0 = h) -> run c s0 evs = (s1, tr1) ->
+              stopping s1 = false -> looper s1 = h).
+  { induction evs0 as [|e r IH]; simpl; intros s0 s1 tr1 I0 L0 R.
+    - inv R. auto.
+    - destruct (step c s0 e) as [s2 o] eqn:E. destruct (run c s2 r) as [s3 t3] eqn:E3. inv R.
+      eapply IH; [eapply inv_step; eauto| |exact E3].
+      assert (NSF : (forall cv, e <> EStop cv) -> stopping s2 = false -> looper s2 = h).
+      { intros NE. destruct (step_flags _ _ _ _ _ I0 NE E) as [F1 F2]. rewrite F1, F2. exact L0. }
+      destruct e; try (apply NSF; intros ? X; discriminate X).
+      apply stop_step_spec in E; auto. destruct E as [_ _ (X & _) _ _]. intros Y. congruence. }
+  eapply G; eauto; [apply init_inv|reflexivity].
+Qed.
+
+(* ------------------------------------------------------------------ stop(): what an outcome can be when the client's
+   cancelled Deferred delivers a value of its own (the real client: responses of the brokers that had answered, the
+   other payloads failed) *)
+Definition vresps (v : value) : list (tp * Z * Z) := match v with VResp rs | VFailed rs _ => rs | _ => [] end.
+Definition err_resp (rs : list (tp * Z * Z)) (k : Z) : Prop :=
+  exists x err off, In (x, err, off) rs /\ err <> 0 /\ k = K_BROKER + err.
+(* outcome o is what result v says about a payload *)
+Definition value_outcome (c : cfg) (v : value) (o : outcome) : Prop :=
+  match o with
+  | OResp t p err off => err = 0 /\ In ((t, p), 0, off) (vresps v)
+  | ONone => c_acks c = 0 /\ match v with VEmpty | VFailed _ _ => True | _ => False end
+  | OFail k f =>
+      f = 0 /\
+      match v with
+      | VEmpty => k = K_NORESP /\ c_acks c <> 0
+      | VOther k' | VKafka k' => k = k'
+      | VResp rs => err_resp rs k
+      | VFailed rs fs => (exists x, In (x, k) fs) \/ err_resp rs k
+      end
+  end.
+
+Lemma deliver_val : forall l s o0 s' out sid o, deliver s l o0 = (s', out) -> In (OOutcome sid o) out -> o = o0.
+Proof.
+  induction l as [|x r IH]; simpl; intros s o0 s' out sid o H X; [inv H; destruct X|].
+  destruct (zmem (s_id x) (outstanding s)); [|eauto].
+  destruct (deliver _ r o0) as [s1 o1] eqn:E. inv H. destruct X as [X|X]; [inv X; auto|eauto].
+Qed.
+
+Lemma process_resps_val : forall rs s pls s' out fl, process_resps s pls rs = (s', out, fl) ->
+  (forall sid o, In (OOutcome sid o) out -> exists x off, In (x, 0, off) rs /\ o = OResp (fst x) (snd x) 0 off) /\
+  (forall x k b, In (x, k, b) fl -> err_resp rs k).
+Proof.
+  induction rs as [|[[x err] off] r IH]; simpl; intros s pls s' out fl H.
+  - inv H. split; [intros ? ? []|intros ? ? ? []].
+  - destruct (err =? 0) eqn:Ez.
+    + apply Z.eqb_eq in Ez. subst err.
+      destruct (deliver s (sends_of pls x) _) as [s1 o1] eqn:E1. destruct (process_resps s1 pls r) as [[s2 o2] f2] eqn:E2. inv H.
+      apply IH in E2 as [A B]. split.
+      * intros sid o X. apply in_app_or in X as [X|X].
+        -- apply (deliver_val _ _ _ _ _ _ _ E1) in X. exists x, off. simpl; auto.
+        -- destruct (A _ _ X) as (y & o' & Y1 & Y2). exists y, o'. simpl; auto.
+      * intros y k b X. destruct (B _ _ _ X) as (z & e & o' & Z1 & Z2 & Z3). exists z, e, o'. simpl; auto.
+    + apply Z.eqb_neq in Ez. destruct (process_resps s pls r) as [[s2 o2] f2] eqn:E2. inv H. apply IH in E2 as [A B]. split.
+      * intros sid o X. destruct (A _ _ X) as (y & o' & Y1 & Y2). exists y, o'. simpl; auto.
+      * intros y k b [X|X]; [inv X; exists y, err, off; simpl; auto|].
+        destruct (B _ _ _ X) as (z & e & o' & Z1 & Z2 & Z3). exists z, e, o'. simpl; auto.
+Qed.
+
+Lemma deliver_failed_val : forall fl s pls s' out sid o, deliver_failed s pls fl = (s', out) -> In (OOutcome sid o) out ->
+  exists x k b, In (x, k, b) fl /\ o = OFail k 0.
+Proof.
+  induction fl as [|[[x k] b] r IH]; simpl; intros s pls s' out sid o H X; [inv H; destruct X|].
+  destruct (deliver s (sends_of pls x) _) as [s1 o1] eqn:E1. destruct (deliver_failed s1 pls r) as [s2 o2] eqn:E2. inv H.
+  apply in_app_or in X as [X|X].
+  - apply (deliver_val _ _ _ _ _ _ _ E1) in X. exists x, k, b. auto.
+  - destruct (IH _ _ _ _ _ _ E2 X) as (y & k' & b' & Y1 & Y2). exists y, k', b'. auto.
+Qed.
+
+Lemma check_retry_val : forall c s pls fl s1 o1 done sid o, check_retry c s pls fl = (s1, o1, done) ->
+  In (OOutcome sid o) o1 -> exists x k b, In (x, k, b) fl /\ o = OFail k 0.
+Proof.
+  unfold check_retry; intros c s pls fl s1 o1 done sid o H X. destruct ((c_max c <=? attempts s) || stopping s).
+  - destruct (deliver_failed s pls fl) as [s2 o2] eqn:E. inv H. eapply deliver_failed_val; eauto.
+  - inv H. destruct (reset_topics fl); simpl in X; intuition discriminate.
+Qed.
+
+Lemma handle_result_val : forall c s pls cur v s1 o1 done sid o, handle_result c s pls cur v = (s1, o1, done) ->
+  In (OOutcome sid o) o1 -> value_outcome c v o.
+Proof.
+  unfold handle_result; intros c s pls cur v s1 o1 done sid o H X. destruct v.
+  - destruct (deliver s (all_sends pls) _) as [s2 o2] eqn:E. inv H. apply (deliver_val _ _ _ _ _ _ _ E) in X. subst o.
+    destruct (c_acks c =? 0) eqn:A; simpl; [apply Z.eqb_eq in A; auto|apply Z.eqb_neq in A; auto].
+  - destruct (process_resps s pls rs) as [[s2 o2] f2] eqn:E. apply process_resps_val in E as [A B].
+    assert (G : In (OOutcome sid o) o2 -> value_outcome c (VResp rs) o).
+    { intros Y. destruct (A _ _ Y) as (x & off & Y1 & ->). destruct x; simpl; auto. }
+    destruct f2 as [|p0 f2]; [inv H; auto|].
+    destruct (check_retry c s2 pls (p0 :: f2)) as [[s3 o3] d3] eqn:E3. inv H.
+    apply in_app_or in X as [X|X]; auto.
+    destruct (check_retry_val _ _ _ _ _ _ _ _ _ E3 X) as (x & k & b & Y1 & ->). simpl. split; auto. eapply B; eauto.
+  - destruct (if c_acks c =? 0 then _ else _) as [s0 o0] eqn:E0.
+    destruct (process_resps s0 pls rs) as [[s2 o2] f2] eqn:E. apply process_resps_val in E as [A B].
+    destruct (check_retry c s2 pls _) as [[s3 o3] d3] eqn:E3. inv H.
+    apply in_app_or in X as [X|X].
+    + destruct (c_acks c =? 0) eqn:Ac; [|inv E0; destruct X].
+      apply (deliver_val _ _ _ _ _ _ _ E0) in X. subst o. simpl. split; auto. apply Z.eqb_eq; auto.
+    + apply in_app_or in X as [X|X].
+      * destruct (A _ _ X) as (x & off & Y1 & ->). destruct x; simpl; auto.
+      * destruct (check_retry_val _ _ _ _ _ _ _ _ _ E3 X) as (x & k & b & Y1 & ->). simpl. split; auto.
+        apply in_app_or in Y1 as [Y1|Y1]; [left|right; eapply B; eauto].
+        apply in_map_iff in Y1 as ([y k'] & Y2 & Y3). inv Y2. exists x; auto.
+  - destruct (check_retry_val _ _ _ _ _ _ _ _ _ H X) as (x & k' & b & Y1 & ->). simpl. split; auto.
+    apply in_map_iff in Y1 as (y & Y2 & _). inv Y2. reflexivity.
+  - destruct (deliver s (all_sends pls) _) as [s2 o2] eqn:E. inv H. apply (deliver_val _ _ _ _ _ _ _ E) in X. subst o. simpl. auto.
+Qed.
+
+Theorem stop_outcomes : forall c s cv s' out sid o, Inv s -> step c s (EStop cv) = (s', out) -> In (OOutcome sid o) out ->
+  o = OFail K_CANCEL 0 \/ o = OFail K_TIDCANCEL 0 \/
+  exists pls cur v, ph s = Sending pls cur /\ cv = Some v /\ result_ok c cur v = true /\ value_outcome c v o.
+Proof.
+  intros c s cv s' out sid o I H X. pose proof I as [W L]. pose proof W as [IB PW ID ST].
+  unfold step in H. set (s0 := set_flags s true (looper s)) in *.
+  destruct (cancel_batch c s0 cv) as [[s1 o1] done] eqn:E.
+  assert (Q1 : In (OOutcome sid o) o1 -> o = OFail K_TIDCANCEL 0 \/
+               exists pls cur v, ph s = Sending pls cur /\ cv = Some v /\ result_ok c cur v = true /\ value_outcome c v o).
+  { intros Y. unfold cancel_batch in E. destruct (ph s0) eqn:P.
+    - inv E. destruct Y.
+    - exfalso. destruct (map_lookups _ s0 reqs ls) as [[s2 o2] ls2] eqn:E1.
+      pose proof (cancel_lookups_out _ _ _ _ _ _ _ (eq_refl : stopping s0 = true) E1) as [_ St2].
+      apply map_lookups_xl in E1 as (_ & A2 & _).
+      2:{ intros st x l st' o' l' Hf. destruct l; [discriminate| |].
+          - inv Hf. eapply lookup_loaded_xl; eauto.
+          - inv Hf. xl_done. }
+      unfold lookups_progress in E. destruct (all_done ls2).
+      + rewrite send_requests_stopping in E; auto. inv E. rewrite app_nil_r in Y.
+        unfold lk_outs in A2. rewrite Forall_forall in A2. apply A2 in Y. discriminate.
+      + inv E. rewrite app_nil_r in Y. unfold lk_outs in A2. rewrite Forall_forall in A2. apply A2 in Y. discriminate.
+    - left. unfold version_failed in E. destruct (deliver s0 reqs _) eqn:D; inv E. eapply deliver_val; eauto.
+    - destruct cv as [v|].
+      + destruct (result_ok c cur v) eqn:OK.
+        * right. exists pls, cur, v. repeat split; auto. eapply handle_result_val; eauto.
+        * left. apply (handle_result_val _ _ _ _ _ _ _ _ _ _ E) in Y. destruct o; simpl in Y.
+          -- destruct Y as [_ []].
+          -- destruct Y as [_ []].
+          -- destruct Y as [-> ->]. reflexivity.
+      + left. apply (handle_result_val _ _ _ _ _ _ _ _ _ _ E) in Y. destruct o; simpl in Y.
+        -- destruct Y as [_ []].
+        -- destruct Y as [_ []].
+        -- destruct Y as [-> ->]. reflexivity.
+    - left. destruct (deliver s0 (all_sends pls) _) eqn:D; inv E. destruct Y as [Y|Y]; [discriminate|]. eapply deliver_val; eauto. }
+  assert (K : stopping s1 = true).
+  { destruct (phase_eq_idle (ph s)) as [Pi|Pi].
+    - unfold cancel_batch in E. replace (ph s0) with Idle in E by (symmetry; exact Pi). inv E. reflexivity.
+    - apply cancel_batch_ok in E. destruct E as [[_ _ _ K _ _ _] _ _]. rewrite K. reflexivity. }
+  assert (Pd : done = false -> ph s1 = Idle).
+  { intros ->. destruct (phase_eq_idle (ph s)) as [Pi|Pi].
+    - unfold cancel_batch in E. replace (ph s0) with Idle in E by (symmetry; exact Pi). inv E. exact Pi.
+    - pose proof (cancel_batch_done c s0 cv _ _ _ (eq_refl : stopping s0 = true) PW Pi E). discriminate. }
+  assert (M : exists s2 o2, apply_epi c s1 (if done then Fin else NoEpi) = (s2, o2) /\ (~ In (OOutcome sid o) o2) /\ ph s2 = Idle).
+  { destruct done; simpl.
+    - unfold finish, finish0. destruct (stopping_no_dispatch c (set_retry (set_ph s1 Idle) 0 0 0) K) as [_ C]. rewrite C.
+      eexists; eexists; split; [reflexivity|]. split; [intros [Y|[]]; discriminate|reflexivity].
+    - eexists; eexists; split; [reflexivity|]. split; [intros []|auto]. }
+  destruct M as (s2 & o2 & A & Q2 & P2). unfold fin_if in H. rewrite A in H.
+  destruct (cancel_all _ _) as [s4 o4] eqn:E4. inv H.
+  apply cancel_all_idle_outcomes in E4; [|exact P2].
+  apply in_app_or in X as [X|X]; [destruct (Q1 X) as [Y|Y]; auto|].
+  apply in_app_or in X as [X|X]; [exfalso; auto|].
+  rewrite Forall_forall in E4. apply E4 in X. simpl in X. destruct X as [X|X]; auto.
 Qed.
